@@ -679,7 +679,14 @@ func (t *termer) t(v ssa.Value, d int) string {
 			}
 			return "[" + strings.Join(es, ", ") + "]"
 		}
-		s := t.t(v.X, d+1) + "["
+		base := t.t(v.X, d+1)
+		if al, ok := v.X.(*ssa.Alloc); ok {
+			// slicing a local array variable that is assigned exactly once: render the assigned value
+			if sv := uniqueStore(al); sv != nil {
+				base = t.t(sv, d+1)
+			}
+		}
+		s := base + "["
 		if v.Low != nil {
 			s += t.t(v.Low, d+1)
 		}
@@ -791,6 +798,22 @@ func singleStore(a *ssa.Alloc) ssa.Value {
 			}
 		default:
 			return nil // address escapes
+		}
+	}
+	if n == 1 {
+		return sv
+	}
+	return nil
+}
+
+// uniqueStore returns the only value ever stored directly to the allocation (whatever else refers to it), or nil.
+func uniqueStore(a *ssa.Alloc) ssa.Value {
+	var sv ssa.Value
+	n := 0
+	for _, r := range *a.Referrers() {
+		if st, ok := r.(*ssa.Store); ok && st.Addr == a {
+			sv = st.Val
+			n++
 		}
 	}
 	if n == 1 {
